@@ -83,6 +83,9 @@ def run_real(bib, text):
         return {"err": "exception", "msg": f"{type(ex).__name__}: {ex}"}
 
 
+_LL = {}
+
+
 def via_middleware(bib, text):
     """SplitNameParts on an entry whose author list holds the name."""
     M = bib.model
@@ -99,7 +102,9 @@ def via_middleware(bib, text):
             lib = mg.transform(sp.transform(lib))
             e = lib.blocks[0]
             e.fields[0].value = list(names)
-        out = m.SplitNameParts(allow_inplace_modification=False).transform(lib)
+        if len(text) % 2 and "split" not in _LL:
+            _LL["split"] = m.SplitNameParts(allow_inplace_modification=False)
+        out = (_LL["split"] if len(text) % 2 else m.SplitNameParts(allow_inplace_modification=False)).transform(lib)
     except Exception as ex:  # noqa: an invalid name must become an error block, never an exception
         return {"err": "exception", "msg": f"{type(ex).__name__}: {ex}", "keeps_entry": False, "writable": False}
     b = out.blocks[0]
